@@ -6,6 +6,7 @@
   size test — a genuine defect that the existing test `Equality.parseMath` pins (known finding).
 -/
 import Cellml.Equals.Partial
+import Cellml.Generated.EqualsFields
 namespace Cellml.Props.C10
 open Cellml.Equals
 
@@ -133,5 +134,26 @@ example : WithinDepth 3 pAB ∧ eqComponent true 3 pAB pAB = true := by
   simp [pAB] at hc
   rcases hc with rfl | rfl <;> (intro c hc; simp [cOneVar, cEmpty] at hc)
 example : UniformVars 0 2 cEmpty := ⟨rfl, fun _ h => by cases h⟩
+
+/-! ### the attributes `equals()` looks at (table regenerated from the `doEquals()` bodies) -/
+
+/-- T-tie: the data members each `doEquals()` mentions and the base-class comparisons it chains to are the ones the
+    equality model (`Cellml/Equals/Model.lean`) compares: identifier; name; import source and reference; URL; child
+    components and encapsulation identifier; initial value, interface type and units; the seven reset fields; the
+    unit definitions with their five fields; math and resets (variables through `equalEntities`); the units of a model.
+    A comparison added to or dropped from the code re-opens this obligation (and the model has to follow). -/
+theorem equals_fields_as_modelled :
+    Cellml.Generated.EqualsFields.rows =
+      [("Entity", ["mId"], []),
+       ("NamedEntity", ["mName"], ["Entity"]),
+       ("ImportedEntity", ["mImportReference", "mImportSource", "mPimpl"], []),
+       ("ImportSource", ["mUrl"], ["Entity"]),
+       ("ComponentEntity", ["mComponents", "mEncapsulationId"], ["NamedEntity"]),
+       ("Variable", ["mInitialValue", "mInterfaceType", "mUnits"], ["NamedEntity"]),
+       ("Reset", ["mOrder", "mResetValue", "mResetValueId", "mTestValue", "mTestValueId", "mTestVariable", "mVariable"], ["Entity"]),
+       ("Units", ["mExponent", "mId", "mMultiplier", "mPrefix", "mReference", "mUnitDefinitions"], ["ImportedEntity", "NamedEntity"]),
+       ("Component", ["mMath", "mResets"], ["ComponentEntity", "ImportedEntity"]),
+       ("Model", ["mUnits"], ["ComponentEntity"])] := by
+  decide +kernel
 
 end Cellml.Props.C10
